@@ -87,7 +87,7 @@ PROPS = {
     },
     "C11": {
         "units": [
-            {"pkg": "./c11", "run": "TestC11Selection|TestC11Handshakes|TestC11SourceHistories", "shards": 4, "shards_thorough": 8, "timeout": 300},
+            {"pkg": "./c11", "run": "TestC11Selection|TestC11Handshakes|TestC11SourceHistories|TestC11LoadOnceSource", "shards": 4, "shards_thorough": 8, "timeout": 300},
             {"pkg": "./mainpkg", "run": "^TestC11", "shards": 2, "shards_thorough": 4, "timeout": 300},
             {"pkg": "./c11", "run": "TestC11ConcurrentReplacement", "race": True, "shards": 2, "shards_thorough": 4, "timeout": 300},
         ],
@@ -200,6 +200,7 @@ PROPS = {
         "units": [
             {"pkg": "./c17", "run": "TestC17Handler|TestC17ThroughProxy", "shards": 4, "shards_thorough": 16, "timeout": 300},
             {"pkg": "./c17", "run": "TestC17Concurrent", "race": True, "shards": 2, "shards_thorough": 4, "timeout": 300},
+            {"pkg": "./mainpkg", "run": "^TestC17", "shards": 2, "shards_thorough": 4, "timeout": 300},
         ],
         "rule": ("rapid-generated (response, request) pairs: bodies 0 B-1 MiB (compressible text, random, already-gzipped, repeated byte; sizes around 512/4096/32768), written in 0-8 chunks incl. empty writes, with/without "
                  "explicit WriteHeader, statuses 200-599 and bodiless 204/304, Content-Type matching / not matching / with parameters / absent (sniffed), pre-set Content-Encoding none/gzip/br/identity/deflate, "
